@@ -26,6 +26,8 @@ SHAPES = {
     # timezone-aware intraday stamps whose UTC date differs from their local date (08:00 in Tokyo is 23:00 UTC of the day before):
     # the level of a day is the last observation of the LOCAL day
     "tokyo": lambda n: [pd.Timestamp("2020-01-06 08:00", tz="Asia/Tokyo") + pd.Timedelta(hours=h) for h in (0, 7, 24, 31, 48)[:n]],
+    # intraday record that starts at a close (16:00) and ends at an open (09:30): whole days elapsed != calendar dates spanned
+    "closeopen": lambda n: [BASE + pd.Timedelta(hours=6) + pd.Timedelta(minutes=m) for m in (0, 1050, 1440, 2490, 3930)[:n]],
     "mixed": lambda n: [BASE + pd.Timedelta(hours=h) for h in (0, 24 * 3, 24 * 3 + 2, 24 * 40, 24 * 40 + 5)[:n]],
 }
 METRICS = ["cagr", "volatility", "max_drawdown", "value_at_risk", "expected_shortfall", "downside_volatility",
@@ -392,9 +394,9 @@ def run(tier, **kw):
     for L in range(2, maxlen + 1):
         for vals in itertools.product(ALPHA, repeat=L):
             for shape in SHAPES:
-                if tier == "quick" and L == 4 and shape not in ("daily", "intraday", "tokyo"):
+                if tier == "quick" and L == 4 and shape not in ("daily", "intraday", "tokyo", "closeopen"):
                     continue
-                if L == 5 and shape not in ("daily", "intraday", "month", "tokyo"):
+                if L == 5 and shape not in ("daily", "intraday", "month", "tokyo", "closeopen"):
                     continue
                 cases.append(("metrics", vals, shape))
     for L in range(2, (3 if tier == "quick" else 4) + 1):
@@ -416,7 +418,7 @@ def run(tier, **kw):
     rep.set("distinct_nontrivial", len(nt))
     rep.set("max_length", maxlen)
     rep.set("exhaustive", True)
-    rep.set("rule", "metrics: ALL level series of length 2..%d over the value alphabet {1,2,4,3,1.5,0.75} x 6 index shapes (consecutive days, weekend gap, "
+    rep.set("rule", "metrics: ALL level series of length 2..%d over the value alphabet {1,2,4,3,1.5,0.75} x 7 index shapes (consecutive days, a close-to-open intraday record, weekend gap, "
                     "intraday stamps collapsing to daily levels, the same with a timezone-aware index whose UTC dates differ from the local ones, month gaps, mixed) spanning >= 1 calendar day: 12 scalar metrics (with and without a scalar "
                     "risk-free rate), VaR and expected shortfall also at quantile levels 0.25/0.5/0.75/1, 3 series-valued metrics, a 2-column DataFrame, a risk-free level series, tracking error against a benchmark, and 5 "
                     "scalings; corruptions: every single-defect variant (NaN / 0 / negative at each position, duplicated stamp, swapped adjacent stamps, "
